@@ -14,8 +14,11 @@ CONSTANTS
   Quantum = 6
   MaxTime = 120
   Rule = "defective"
+  Cfgs = {"A"}
+  InitCfg = "A"
+  RL = "safe"
   Off = {}
   Lim <- LateStart
 VIEW View
-INVARIANTS AtLeastOnce NoDuplicateWhenHealthy SilenceSurvivesRestart NoRepeatAfterRestart ReadyEventually Sane
+INVARIANTS AtLeastOnce NoDuplicateWhenHealthy SilenceSurvivesRestart NoRepeatAfterRestart ReadyEventually RoutedByConfigInForce StatusShowsConfigInForce ReceiversAgree Sane
 CHECK_DEADLOCK FALSE
